@@ -8,10 +8,12 @@
    (finer or equal exponent; some digits dropped through the inner Round with a scratch context, with the
    carry out of all nines folded back; exactly all digits dropped; the operand more than one digit below
    the quantum; zeros), Context.Quantize with its guards, and RoundToIntegralExact / Value.
-   Ceil and Floor: decided by the integer oracle on the implementation and by correspondence (not proven). *)
+   Ceil and Floor, for every finite operand: x itself when its exponent is positive; the integer part
+   (Decimal.Modf's truncation) when no adjustment is due; otherwise the integer int_part + 1 rounded ONCE to the
+   context (op_post: value, flags, fit), which is that integer exactly whenever it fits the precision. *)
 From Coq Require Import ZArith Bool.
 From Apd Require Import Generated.Consts Model.Base Model.NumDigits Model.Decimal Model.Context Spec.SpecZ
-  Proofs.Core Proofs.SetExponent Proofs.OpsProofs Proofs.QuantizeProofs Proofs.QuantizeMid.
+  Proofs.Core Proofs.SetExponent Proofs.OpsProofs Proofs.QuantizeProofs Proofs.QuantizeMid Proofs.CeilFloor Proofs.OpsProjections.
 Open Scope Z_scope.
 
 Theorem C09_quantize_finer_exact est c v e : e <= exp v -> exp v - e <= MaxExponent ->
@@ -72,6 +74,46 @@ Theorem C09_round_to_integral est : est_in_range est -> forall c x, form_of x = 
             Inexact (clear_inexact_rounded f) = false /\ Rounded (clear_inexact_rounded f) = false.
 Proof. exact (rti_correct est). Qed.
 Print Assumptions C09_round_to_integral.
+
+(* Ceil: the smallest integer not below x.  int_part x = |coeff| / 10^-exp (truncation), has_frac x: digits
+   follow the point.  Negative or integral x: the truncation itself, no flags.  Positive with a fraction:
+   int_part + 1 through one Context.Add, hence rounded once (op_post = C01 + C02 + C07 for that integer). *)
+Theorem C09_ceil est : est_in_range est -> forall c x, ctx_ok c -> finite_nn x -> ndigits (int_part x + 1) < MaxExponent ->
+  if 0 <? exp x then ctx_ceil est c x = Ok (mkResult (Some x) c0 ENone)
+  else if has_frac x && negb (neg x)
+  then exists d f, ctx_ceil est c x = Ok (finish c d f) /\ op_post c (mkExact false (int_part x + 1) 1 0) d f
+  else ctx_ceil est c x = Ok (mkResult (Some (mkDec Finite (neg x) 0 (int_part x))) c0 ENone).
+Proof. exact (ceil_correct est). Qed.
+Print Assumptions C09_ceil.
+
+(* Floor: the largest integer not above x; negative with a fraction: -(int_part + 1) through one Context.Sub *)
+Theorem C09_floor est : est_in_range est -> forall c x, ctx_ok c -> finite_nn x -> ndigits (int_part x + 1) < MaxExponent ->
+  if 0 <? exp x then ctx_floor est c x = Ok (mkResult (Some x) c0 ENone)
+  else if has_frac x && neg x
+  then exists d f, ctx_floor est c x = Ok (finish c d f) /\ op_post c (mkExact true (int_part x + 1) 1 0) d f
+  else ctx_floor est c x = Ok (mkResult (Some (mkDec Finite (neg x) 0 (int_part x))) c0 ENone).
+Proof. exact (floor_correct est). Qed.
+Print Assumptions C09_floor.
+
+(* "whose integer part fits the precision": then op_post pins the result to that integer exactly - sign ng,
+   value q + 1 (whatever exponent the representation carries), neither Inexact nor Overflow *)
+Theorem C09_ceil_floor_exact_when_fits c ng q d f : ctx_ok c -> 0 <= q -> ndigits (q + 1) <= prec c ->
+  emin c - prec c + 1 <= 0 -> ndigits (q + 1) - 1 <= emax c ->
+  op_post c (mkExact ng (q + 1) 1 0) d f ->
+  form_of d = Finite /\ neg d = ng /\ Inexact f = false /\ Overflow f = false /\
+  forall t, 0 <= t -> 0 <= exp d + t -> coeff d * 10 ^ (exp d + t) = (q + 1) * 10 ^ t.
+Proof. exact (ceil_floor_fits c ng q d f). Qed.
+Print Assumptions C09_ceil_floor_exact_when_fits.
+
+(* non-vacuity: Ceil(12.3) = 13, Ceil(-12.3) = -12, Floor(-12.3) = -13, Ceil(99.5) at Precision 2 = 1.0E+2 *)
+Example C09_ceil_floor_example :
+  (rdec_value (ctx_ceil go_est (mkCtx 5 9 (-9) c0 RHalfUp) (mkDec Finite false (-1) 123)),
+   rdec_value (ctx_ceil go_est (mkCtx 5 9 (-9) c0 RHalfUp) (mkDec Finite true (-1) 123)),
+   rdec_value (ctx_floor go_est (mkCtx 5 9 (-9) c0 RHalfUp) (mkDec Finite true (-1) 123)),
+   rdec_value (ctx_ceil go_est (mkCtx 2 9 (-9) c0 RHalfUp) (mkDec Finite false (-1) 995)))
+  = (Some (mkDec Finite false 0 13), Some (mkDec Finite true 0 12), Some (mkDec Finite true 0 13),
+     Some (mkDec Finite false 1 10)).
+Proof. vm_compute. reflexivity. Qed.
 
 (* non-vacuity: 999.5 quantized to exponent 0 at Precision 3 under half_up rounds to 1000, which needs four
    digits: invalid; at Precision 4 it is 1000 with Inexact *)
